@@ -579,4 +579,10 @@ def run(P, R, tier):
     # the account a class rule sees is this client's stamp, not a copy kept from an earlier client
     from . import c07
     c07.storage_audit(P, Remap(R, {'C07.WMC.1': 'C05.WMC.4', 'C07.WMC.2': 'C05.WMC.4'}))
+    # shared (round 9): the class in the verdict is the first matching rule's in name order, and an account is only
+    # taken from a service whose protocol is the configured one
+    from ..report import Remap as _Remap
+    from . import c11 as _c11, c17 as _c17
+    _c11.comparator(P, _Remap(R, {'C11.TAB.1': 'C05.TAB.5'}))
+    _c17.slot_insertion(P, _Remap(R, {'C17.MPT.2': 'C05.MPT.4'}))
     return EXPLANATION, ASSUMPTIONS
